@@ -15,6 +15,9 @@ SLOT_STATE_REDIRECTS = [
     redirect(SS, "use std::collections::BTreeMap;", "use crate::verif_coll::BTreeMap;"),
     redirect(SS, "use smallvec::SmallVec;", "use crate::verif_coll::SmallVec;"),
     redirect(SS, "use super::sorted_vec::{SortedVecMap, SortedVecSet};", "use crate::verif_coll::{SortedVecMap, SortedVecSet};"),
+    # std Vec (votes per validator, certificate list, collected votes) -> typed contiguous stand-in: constants propagate
+    # through a typed array but not through the untyped heap block behind a std Vec
+    {"file": SS, "pattern": r"^use std::sync::Arc;$", "replacement": "use std::sync::Arc;\n#[cfg(kani)]\nuse crate::verif_coll::tvec::{Vec, vec};", "count": 1, "required": True},
 ]
 STUBS = ["crypto::aggsig::SecretKey::sign", "consensus::cert::NotarCert::new", "consensus::cert::NotarFallbackCert::new", "consensus::cert::SkipCert::new", "consensus::cert::FastFinalCert::new", "consensus::cert::FinalCert::new"]
 Q, T = ["quick", "thorough"], ["thorough"]
